@@ -620,6 +620,9 @@ def emit_slice(spec, log, vacuity=False):
             raise ExtractError('%s: loop head `%s` matches %d loops (anchor lost)' % (spec.path, sel[1], len(hits)))
         lo, hi = hits[0][1] + 1, m[hits[0][1]] - 1
         desc = 'body of the loop `%s ..`' % sel[1]
+    elif sel[0] == 'body':
+        lo, hi = it.body_open + 1, it.last - 1
+        desc = 'whole body'
     elif sel[0] == 'afterstmt':
         hits = find_token_seq(sf, it.body_open + 1, it.last, plain_texts(sel[1]))
         if len(hits) != 1:
@@ -857,7 +860,9 @@ def expand_fragment(frag_name, text, out_lines, regions, log, vacuity=False):
                     ms = re.match(r'^stmts\s+<<(.*?)>>\s*\.\.\s*<<(.*?)>>$', selector.strip())
                     ml = re.match(r'^loopbody\s+<<(.*?)>>$', selector.strip())
                     ma = re.match(r'^after\s+<<(.*?)>>$', selector.strip())
-                    if ms:
+                    if selector.strip() == 'body':
+                        opts['sel'] = ('body',)
+                    elif ms:
                         opts['sel'] = ('stmts', ms.group(1), ms.group(2))
                     elif ml:
                         opts['sel'] = ('loopbody', ml.group(1))
